@@ -108,10 +108,12 @@ class FunctionRun:
             if spec is None:
                 raise Unsupported('contract of %s gives no region for pointer parameter %s' % (self.fname, name))
             if name in aliases:
-                f.params[name] = (f.params[aliases[name]][0], ct)
-                continue
+                continue         # bound below, once its partner exists
             f.params[name] = (self.make_pointee(name, spec, ct.to, tr, info), ct)
             try_sets()
+        for p in params:
+            if p.get('name') in aliases:
+                f.params[p['name']] = (f.params[aliases[p['name']]][0], self.tu.ctype(p['type']))
         # nested shape entries ('a.b': spec), in contract order
         for path, spec in c.regions.items():
             if '.' not in path and '[' not in path:
@@ -578,7 +580,7 @@ def check(pc, goal, timeout_ms):
     # all hypotheses: the strategies take turns with growing slices (the best one is not known in advance and they
     # differ by an order of magnitude; iterative deepening costs at most ~2x the best strategy)
     reasons = []
-    for frac in (0.04, 0.12, 0.40):
+    for rnd_no, frac in enumerate((0.04, 0.12, 0.40)):
         reasons = []
         for strat in STRATEGIES:
             r, dt, s = _run(strat, pc, goal, timeout_ms * frac, seed)
@@ -588,7 +590,68 @@ def check(pc, goal, timeout_ms):
             if r == z3.sat:
                 return 'sat', total, s.model(), strat
             reasons.append('%s:%s' % (strat, s.reason_unknown()))
+        if rnd_no == 0:
+            # refutation by evaluation (DESIGN.md 2.7): sample models of the hypotheses alone and evaluate the goal under
+            # them.  A model of the hypotheses that falsifies the goal IS a counter-model, found without search (a wrong
+            # rotation constant in 20 ARX rounds is out of reach for SAT search but is refuted by almost any assignment).
+            t0 = time.time()
+            m = sample_refute(pc, goal, seed)
+            total += time.time() - t0
+            if m is not None:
+                return 'sat', total, m, 'evaluation'
     return 'unknown', total, None, ','.join(reasons)
+
+
+def sample_refute(pc, goal, seed, tries=6):
+    import random
+    rnd = random.Random(1000 + seed)
+    arrays = []
+    seen = set()
+    todo = list(pc) + [goal]
+    visited = set()
+    while todo:
+        x = todo.pop()
+        i = x.get_id()
+        if i in visited:
+            continue
+        visited.add(i)
+        if z3.is_quantifier(x):
+            todo.append(x.body())
+            continue
+        if z3.is_app(x):
+            d = x.decl()
+            if d.kind() == z3.Z3_OP_UNINTERPRETED and d.arity() == 0 and d.range().kind() == z3.Z3_ARRAY_SORT and d.name() not in seen:
+                seen.add(d.name())
+                arrays.append(x)
+            todo.extend(x.children())
+    for t in range(tries):
+        s = z3.Solver()
+        s.set('timeout', 10000)
+        s.set('random_seed', rnd.randrange(1 << 30))
+        s.add(*pc)
+        if t:
+            # diversify: pin some elements of the input arrays to random values (kept only if consistent)
+            extra = []
+            for a in arrays:
+                w = a.sort().range().size()
+                for k in range(16):
+                    extra.append(z3.Select(a, z3.BitVecVal(k, 64)) == z3.BitVecVal(rnd.randrange(1 << w), w))
+            s.push()
+            s.add(*extra)
+            if s.check() != z3.sat:
+                s.pop()
+                if s.check() != z3.sat:
+                    continue
+        elif s.check() != z3.sat:
+            continue
+        try:
+            m = s.model()
+            val = m.eval(goal, model_completion=True)
+        except z3.Z3Exception:
+            continue
+        if z3.is_false(z3.simplify(val)):
+            return m
+    return None
 
 
 def small_model(pc, goal, info, model):
@@ -713,6 +776,11 @@ def verify_function(tu, reg, fname, prop='CVC', timeout_ms=None, kinds=None, rep
             n_inst += 1
             if z3.is_true(ob.goal):
                 continue
+            if status == 'violated':
+                break             # one counter-model per obligation is enough
+            if status == 'undecided' and secs > 2.5 * timeout_ms / 1000.0:
+                detail.append('remaining instances not tried (budget of this obligation used up)')
+                break
             r, dt, model, reason = 'unsat', 0.0, None, ''
             for piece in split_goal(ob.goal):
                 r1, dt1, model1, reason1 = check(ob.pc, piece, timeout_ms)
